@@ -1,6 +1,7 @@
 package main
 
 import (
+	"context"
 	"encoding/json"
 	"flag"
 	"fmt"
@@ -10,6 +11,7 @@ import (
 	"runtime"
 	"sort"
 	"strings"
+	"sync"
 	"time"
 )
 
@@ -24,6 +26,23 @@ type PropSpec struct {
 	Assume    []string                  `json:"assumptions"`
 	Outside   []string                  `json:"outside"`
 	Audit     bool                      `json:"audit"`
+	// Levels: the thorough tier first decides the quick bounds (strictly: anything inconclusive there
+	// is a failure of the check) and then re-runs every harness under each of these deeper bound
+	// sets in turn, each within "budget-s" seconds. A level that does not finish (time, unwinding,
+	// solver unknown) is abandoned and reported as such: the claim is the deepest level completed.
+	// Findings met on the way count whether or not their level completed (they are replayed).
+	Levels []map[string]int `json:"thorough_levels"`
+}
+
+// LevelRun records what one (harness, level) run covered.
+type LevelRun struct {
+	Harness   string         `json:"harness"`
+	Level     int            `json:"level"`
+	Bounds    map[string]int `json:"bounds"`
+	Completed bool           `json:"completed"`
+	WallS     float64        `json:"wall_s"`
+	Paths     int64          `json:"paths_completed"`
+	Reason    []string       `json:"abandoned_because,omitempty"`
 }
 
 type HarnessSpec struct {
@@ -65,6 +84,7 @@ func main() {
 	seed := 0
 	fmt.Sscan(os.Getenv("VERIF_SEED"), &seed)
 	d := &Driver{verif: *verifDir, repo: *repoDir, tier: *tier, workers: *workers, verbose: *verbose, noReplay: *noReplay, seed: seed, only: *only}
+	repoRoot = strings.TrimSuffix(*repoDir, "/")
 	if *replay != "" {
 		os.Exit(d.replayFile(*replay))
 	}
@@ -74,6 +94,9 @@ func main() {
 	}
 	os.Exit(d.check(*prop))
 }
+
+// repoRoot is the tree being verified (positions are reported relative to it).
+var repoRoot = "/repo"
 
 func isFlagSet(name string) bool {
 	set := false
@@ -94,6 +117,8 @@ type Driver struct {
 	work              string
 	overlay           map[string][]byte
 	overlayJSON       string
+	levelRuns         []LevelRun
+	cross             *CrossResult
 }
 
 func (d *Driver) buildOverlay() error {
@@ -314,16 +339,50 @@ func (d *Driver) check(id string) int {
 		eng.unwind = spec.Unwind
 	}
 	eng.audit = spec.Audit
-	for _, tr := range []string{"all", d.tier} {
-		for k, v := range spec.Bounds[tr] {
-			eng.bounds[k] = v
+	// bound sets: level 0 is the tier's own; the thorough tier with levels starts from the quick bounds
+	setBounds := func(level int) {
+		eng.bounds = map[string]int{}
+		base := d.tier
+		if d.tier == "thorough" && len(spec.Levels) > 0 {
+			base = "quick"
+		}
+		for _, tr := range []string{"all", base} {
+			for k, v := range spec.Bounds[tr] {
+				eng.bounds[k] = v
+			}
+		}
+		eng.deadline = 0
+		if v, ok := eng.bounds["deadline-s"]; ok {
+			eng.deadline = time.Duration(v) * time.Second
+			if base != d.tier {
+				eng.deadline *= 3
+			}
+		}
+		if level > 0 {
+			for k, v := range spec.Levels[level-1] {
+				eng.bounds[k] = v
+			}
+			delete(eng.bounds, "deadline-s")
+			b := eng.bounds["budget-s"]
+			if b == 0 {
+				b = 900
+			}
+			eng.deadline = time.Duration(b) * time.Second
+		}
+	}
+	setBounds(0)
+	if !d.noReplay && eng.concrete == nil {
+		eng.crossDir = filepath.Join(d.work, "cross")
+		os.MkdirAll(eng.crossDir, 0o755)
+		eng.crossN = map[string]int{}
+		gCross = eng
+		eng.crossMax = 2
+		if d.tier == "thorough" {
+			eng.crossMax = 8
 		}
 	}
 	if v, ok := eng.bounds["solver-timeout-ms"]; ok {
 		eng.solverTO = v
-	}
-	if v, ok := eng.bounds["deadline-s"]; ok {
-		eng.deadline = time.Duration(v) * time.Second
 	}
 	if cx := os.Getenv("GOSYM_CONCRETE"); cx != "" {
 		var c cexOut
@@ -349,6 +408,7 @@ func (d *Driver) check(id string) int {
 	slv.Close()
 
 	var incon []string
+	var levelRuns []LevelRun
 	wantCovers := map[string]string{}
 	for _, h := range spec.Harnesses {
 		if h.Tier == "thorough" && d.tier != "thorough" {
@@ -360,14 +420,36 @@ func (d *Driver) check(id string) int {
 		for _, c := range h.Covers {
 			wantCovers[c] = h.Func
 		}
-		hs := time.Now()
-		if err := eng.RunHarness(modPath+"/"+h.Pkg, h.Func, d.workers, d.work); err != nil {
-			incon = append(incon, "ENGINE "+err.Error())
+		nLevels := 0
+		if d.tier == "thorough" && eng.concrete == nil {
+			nLevels = len(spec.Levels)
 		}
-		if d.verbose {
-			fmt.Fprintf(os.Stderr, "harness %s: %.1fs states=%d paths=%d\n", h.Func, time.Since(hs).Seconds(), eng.stats.States, eng.stats.Paths)
+		for level := 0; level <= nLevels; level++ {
+			setBounds(level)
+			hs := time.Now()
+			nIncon, p0 := len(eng.incon), eng.stats.Paths
+			if err := eng.RunHarness(modPath+"/"+h.Pkg, h.Func, d.workers, d.work); err != nil {
+				eng.inconclusive("ENGINE " + err.Error())
+			}
+			lr := LevelRun{Harness: h.Func, Level: level, Bounds: map[string]int{}, Completed: len(eng.incon) == nIncon, WallS: time.Since(hs).Seconds(), Paths: eng.stats.Paths - p0}
+			for k, v := range eng.bounds {
+				lr.Bounds[k] = v
+			}
+			if level > 0 && !lr.Completed {
+				// a deeper level that did not finish is a reduced bound, not a failed check
+				lr.Reason = append(lr.Reason, eng.incon[nIncon:]...)
+				eng.incon = eng.incon[:nIncon]
+			}
+			levelRuns = append(levelRuns, lr)
+			if d.verbose {
+				fmt.Fprintf(os.Stderr, "harness %s level %d: %.1fs completed=%v states=%d paths=%d\n", h.Func, level, time.Since(hs).Seconds(), lr.Completed, eng.stats.States, eng.stats.Paths)
+			}
+			if !lr.Completed {
+				break
+			}
 		}
 	}
+	setBounds(0)
 	if d.verbose {
 		type kv struct {
 			k string
@@ -397,6 +479,7 @@ func (d *Driver) check(id string) int {
 			fmt.Fprintf(os.Stderr, "%6d  %s\n", x.v, x.k)
 		}
 	}
+	d.levelRuns = levelRuns
 	incon = append(incon, eng.incon...)
 	for c, h := range wantCovers {
 		if _, ok := eng.covers[c]; !ok {
@@ -437,7 +520,7 @@ func (d *Driver) check(id string) int {
 	validated := 0
 	var lines []string
 	for i, g := range groups {
-		c := cexOut{Harness: g.f.Harness, Pkg: pkgOf[g.f.Harness], Label: g.f.Label, Kind: g.f.Kind, Where: g.f.Where, Tags: g.f.Tags, Sched: g.f.Sched, Inputs: g.f.Inputs, Bounds: eng.bounds}
+		c := cexOut{Harness: g.f.Harness, Pkg: pkgOf[g.f.Harness], Label: g.f.Label, Kind: g.f.Kind, Where: g.f.Where, Tags: g.f.Tags, Sched: g.f.Sched, Inputs: g.f.Inputs, Bounds: g.f.Bounds}
 		g.cexPath = filepath.Join(cexDir, fmt.Sprintf("%s-%s-%d.json", id, sanitize(g.f.Label), i))
 		cb, _ := json.MarshalIndent(c, "", " ")
 		os.WriteFile(g.cexPath, cb, 0o644)
@@ -516,7 +599,7 @@ func (d *Driver) check(id string) int {
 				continue
 			}
 			done++
-			c := cexOut{Harness: f.Harness, Pkg: pkgOf[f.Harness], Label: l, Kind: "cover", Inputs: f.Inputs, Bounds: eng.bounds}
+			c := cexOut{Harness: f.Harness, Pkg: pkgOf[f.Harness], Label: l, Kind: "cover", Inputs: f.Inputs, Bounds: f.Bounds}
 			p := filepath.Join(d.work, fmt.Sprintf("cover-%d.json", i))
 			cb, _ := json.Marshal(c)
 			os.WriteFile(p, cb, 0o644)
@@ -534,6 +617,12 @@ func (d *Driver) check(id string) int {
 				os.WriteFile(keep, cb, 0o644)
 				incon = append(incon, fmt.Sprintf("WITNESS-MISMATCH cover %q: native covered=%v failed=%v aborted=%q panic=%q err=%q (cex %s)", l, r.Covered, r.Failed, r.Aborted, r.Panic, tail(r.Err, 300), keep))
 			}
+		}
+	}
+	if eng.crossDir != "" {
+		d.cross = crossCheck(eng.crossDir, d.workers)
+		for _, dis := range d.cross.Disagree {
+			incon = append(incon, "SOLVER-DISAGREEMENT "+dis)
 		}
 	}
 	for _, l := range lines {
@@ -578,9 +667,36 @@ func (d *Driver) finish(id string, spec PropSpec, eng *Engine, t0 time.Time, inc
 		cov["queries"] = map[string]int64{"total": gStats.Queries, "sat": gStats.Sat, "unsat": gStats.Unsat, "unknown": gStats.Unknown, "errors": gStats.Errors, "retried_after_timeout": gStats.Retries}
 		cov["solver_s"] = float64(gStats.NanosSMT) / 1e9
 		cov["solvers"] = []string{"z3 4.8.12 (-in, incremental, logic ALL: Int + Array Int Int)"}
+		if d.cross != nil {
+			cov["second_solver_check"] = d.cross
+		}
 		cov["functions_encoded"] = sortedKeys(eng.funcsSeen)
 		cov["stubs_used"] = sortedKeys(eng.stubsSeen)
 		cov["bounds"] = eng.bounds
+		if len(d.levelRuns) > 0 {
+			// the claim: per harness the deepest bound set it completed; for the property the deepest
+			// level every harness completed
+			deepest := map[string]int{}
+			for _, lr := range d.levelRuns {
+				if lr.Completed && lr.Level >= deepest[lr.Harness] {
+					deepest[lr.Harness] = lr.Level
+				}
+			}
+			common := -1
+			for _, lr := range d.levelRuns {
+				if v := deepest[lr.Harness]; common < 0 || v < common {
+					common = v
+				}
+			}
+			for _, lr := range d.levelRuns {
+				if lr.Level == common && lr.Completed {
+					cov["bounds"] = lr.Bounds
+					break
+				}
+			}
+			cov["level_completed_by_every_harness"] = common
+			cov["levels"] = d.levelRuns
+		}
 		cov["obligation_labels"] = eng.oblLabels
 		var cl []string
 		for l := range eng.covers {
@@ -628,4 +744,76 @@ func (d *Driver) finish(id string, spec PropSpec, eng *Engine, t0 time.Time, inc
 	os.WriteFile(filepath.Join(d.verif, "evidence", id+".json"), b, 0o644)
 	fmt.Printf("RESULT property=%s tier=%s exit=%d wall=%.1fs\n", id, d.tier, code, time.Since(t0).Seconds())
 	return code
+}
+
+// CrossResult: discharged obligations (unsat for z3 4.8.12) put again, as stand-alone scripts, to
+// z3 5.x and cvc5. "sat" from either is a disagreement and makes the run inconclusive; a time-out
+// of the second solver is only counted.
+type CrossResult struct {
+	Scripts  int            `json:"obligations_rechecked"`
+	Z3New    map[string]int `json:"z3_5_1_0"`
+	CVC5     map[string]int `json:"cvc5_1_0"`
+	Disagree []string       `json:"disagreements"`
+	WallS    float64        `json:"wall_s"`
+}
+
+func crossCheck(dir string, workers int) *CrossResult {
+	t0 := time.Now()
+	files, _ := filepath.Glob(filepath.Join(dir, "*.smt2"))
+	sort.Strings(files)
+	res := &CrossResult{Scripts: len(files), Z3New: map[string]int{}, CVC5: map[string]int{}, Disagree: []string{}}
+	type job struct{ f string }
+	var mu sync.Mutex
+	var wg sync.WaitGroup
+	ch := make(chan string)
+	runOne := func(name string, args ...string) string {
+		ctx, cancel := context.WithTimeout(context.Background(), 40*time.Second)
+		defer cancel()
+		out, _ := exec.CommandContext(ctx, name, args...).CombinedOutput()
+		txt := string(out)
+		if strings.Contains(txt, "(error") {
+			return "error"
+		}
+		for _, l := range strings.Split(txt, "\n") {
+			switch strings.TrimSpace(l) {
+			case "unsat":
+				return "unsat"
+			case "sat":
+				return "sat"
+			}
+		}
+		return "unknown"
+	}
+	if workers > 8 {
+		workers = 8
+	}
+	for w := 0; w < workers; w++ {
+		wg.Add(1)
+		go func() {
+			defer wg.Done()
+			for f := range ch {
+				a := runOne("z3-new", "-T:30", f)
+				b := runOne("cvc5", "--tlimit=30000", f)
+				mu.Lock()
+				res.Z3New[a]++
+				res.CVC5[b]++
+				if a == "sat" || b == "sat" {
+					keep := filepath.Join(filepath.Dir(filepath.Dir(dir)), "disagree-"+filepath.Base(f))
+					if data, err := os.ReadFile(f); err == nil {
+						os.WriteFile(keep, data, 0o644)
+					}
+					res.Disagree = append(res.Disagree, fmt.Sprintf("%s: z3-new=%s cvc5=%s (kept %s)", filepath.Base(f), a, b, keep))
+				}
+				mu.Unlock()
+			}
+		}()
+	}
+	for _, f := range files {
+		ch <- f
+	}
+	close(ch)
+	wg.Wait()
+	sort.Strings(res.Disagree)
+	res.WallS = time.Since(t0).Seconds()
+	return res
 }
